@@ -62,6 +62,8 @@ type op struct {
 	chosen      int
 	closedUnder bool
 	quiesce     bool
+	canPark     bool // channel op: blocks by parking (visible to others)
+	parked      bool
 }
 
 // Point is one recorded choice point of an execution.
@@ -277,7 +279,13 @@ func (e *Exec) isEnabled(t *thread) bool {
 	if t.ready {
 		return true
 	}
-	return t.pending != nil && !t.pending.quiesce && t.pending.enabled()
+	if t.pending == nil || t.pending.quiesce {
+		return false
+	}
+	if t.pending.canPark && !t.pending.parked {
+		return true // schedulable: completes or parks
+	}
+	return t.pending.enabled()
 }
 
 // enabledList: canonical order — the running thread first if it is still enabled and did not
@@ -383,6 +391,8 @@ func (e *Exec) schedule(from *thread, exiting bool) {
 		}
 	}
 	var next *thread
+	running := from // the thread whose continuation is free of charge
+	cont := !exiting
 	for {
 		e.steps++
 		if e.steps > e.horizon {
@@ -393,7 +403,7 @@ func (e *Exec) schedule(from *thread, exiting bool) {
 			bail("ok")
 			return
 		}
-		en := e.enabledList(from)
+		en := e.enabledList(running)
 		var tm *vtimer
 		if !e.seqMode {
 			tm = e.nextTimer()
@@ -406,29 +416,51 @@ func (e *Exec) schedule(from *thread, exiting bool) {
 			bail("deadlock")
 			return
 		}
-		curEn := en[0] == from && !exiting && !from.yielded
-		if curEn && from.quiet > 0 {
-			next = from
-			break
+		curEn := cont && en[0] == running && !running.yielded
+		if curEn && running.quiet > 0 {
+			next = running
+		} else {
+			alts := len(en)
+			if tm != nil {
+				alts++
+			}
+			if alts == 1 {
+				next = en[0]
+			} else {
+				c := e.choose(alts, false, curEn, tm != nil, running)
+				if e.pruned {
+					bail("pruned")
+					return
+				}
+				if tm != nil && c == alts-1 {
+					e.fire(tm)
+					continue
+				}
+				next = en[c]
+			}
 		}
-		alts := len(en)
-		if tm != nil {
-			alts++
-		}
-		if alts == 1 {
-			next = en[0]
-			break
-		}
-		c := e.choose(alts, false, curEn, tm != nil, from)
-		if e.pruned {
-			bail("pruned")
-			return
-		}
-		if tm != nil && c == alts-1 {
-			e.fire(tm)
+		// a blocking channel operation that cannot complete now parks: a visible transition
+		// (only parked operations are rendezvous partners / waiters for other threads)
+		if !next.ready && next.pending != nil && next.pending.canPark && !next.pending.parked && !next.pending.enabled() {
+			o := next.pending
+			o.parked = true
+			var objs []*uint64
+			if o.ch != nil {
+				objs = append(objs, &o.ch.h)
+			}
+			for _, sc := range o.cases {
+				if sc.ch != nil {
+					objs = append(objs, &sc.ch.h)
+				}
+			}
+			e.event(next, mix(hstr(o.desc), 4), nil, objs...)
+			if e.tracing {
+				e.trace = append(e.trace, fmt.Sprintf("T%d(%s) %s [parks]", next.id, next.name, o.desc))
+			}
+			running.yielded = false
+			running, cont = next, false
 			continue
 		}
-		next = en[c]
 		break
 	}
 	from.yielded = false
